@@ -9,7 +9,9 @@ import (
 	"context"
 	"errors"
 	"fmt"
+	"runtime"
 	"sync"
+	"time"
 
 	"github.com/google/badwolf/storage"
 	"github.com/google/badwolf/triple"
@@ -27,6 +29,10 @@ type Plan struct {
 	// After is the number of elements a failing lookup delivers before it
 	// fails (0: none).
 	After int
+	// Late makes a failing lookup do some work between closing its channel and
+	// returning the error (a driver that releases resources, logs, ...): the
+	// consumer sees the channel closed well before the call returns.
+	Late bool
 }
 
 // Call describes one observed driver call.
@@ -129,7 +135,12 @@ func (s *Store) GraphNames(ctx context.Context, names chan<- string) error {
 // failStream runs the real lookup into a private channel, forwards the first
 // After elements, closes out exactly once and returns the injected error.
 func failStream[T any](s *Store, out chan<- T, run func(chan<- T) error) error {
-	defer close(out)
+	closed := false
+	defer func() {
+		if !closed {
+			close(out)
+		}
+	}()
 	inner := make(chan T)
 	done := make(chan struct{})
 	go func() {
@@ -147,6 +158,16 @@ func failStream[T any](s *Store, out chan<- T, run func(chan<- T) error) error {
 	s.mu.Lock()
 	s.delivered = sent
 	s.mu.Unlock()
+	if s.plan.Late {
+		close(out)
+		closed = true
+		// widen the window between "channel closed" and "call returned"; this
+		// only shapes the interleaving, no verdict depends on the duration
+		for i := 0; i < 100; i++ {
+			runtime.Gosched()
+		}
+		time.Sleep(3 * time.Millisecond)
+	}
 	return ErrInjected
 }
 
